@@ -53,6 +53,10 @@ const c15TwinRef = "/tw/in/r"
 
 const c15Entry = "/hop/entry"
 
+type c15Name struct{ s string }
+
+func (n c15Name) String() string { return n.s }
+
 type traceEv struct {
 	Op   string
 	Path string
@@ -161,7 +165,7 @@ var c15ExtLists = [][]string{
 
 func genC15(t *rapid.T) c15Case {
 	c := c15Case{}
-	c.Via = rapid.SampledFrom([]string{"get", "extends", "import", "include", "include-computed", "exec", "includeIfExists"}).Draw(t, "via")
+	c.Via = rapid.SampledFrom([]string{"get", "extends", "import", "include", "include-computed", "include-stringer", "exec", "includeIfExists"}).Draw(t, "via")
 	c.Depth = rapid.IntRange(0, 3).Draw(t, "depth")
 	c.Spelling = genC15Spelling(t, "sp")
 	c.Alt = respell(t, c.Spelling)
@@ -176,7 +180,7 @@ func genC15(t *rapid.T) c15Case {
 	if len(c.Others) == 0 && rapid.IntRange(0, 4).Draw(t, "missing") == 0 {
 		c.Missing = true
 	}
-	if (c.Via == "include" || c.Via == "include-computed") && !c.Missing && rapid.IntRange(0, 2).Draw(t, "twin") == 0 {
+	if (c.Via == "include" || c.Via == "include-computed" || c.Via == "include-stringer") && !c.Missing && rapid.IntRange(0, 2).Draw(t, "twin") == 0 {
 		c.Twin = true
 		return c
 	}
@@ -217,7 +221,7 @@ func (c c15Case) canonical(spelling string) string {
 	}
 	base := "/"
 	switch c.Via {
-	case "extends", "import", "include", "include-computed":
+	case "extends", "import", "include", "include-computed", "include-stringer":
 		base = filepath.ToSlash(filepath.Dir(c.referrer()))
 	}
 	return normPath(base + "/" + spelling)
@@ -255,7 +259,7 @@ func (c c15Case) files(spelling string) map[string]string {
 	case "include":
 		files[target] = "TARGET"
 		files[ref] = "[{{include " + q + "}}]"
-	case "include-computed":
+	case "include-computed", "include-stringer":
 		files[target] = "TARGET"
 		files[ref] = "[{{include name}}]"
 	case "exec":
@@ -348,6 +352,9 @@ func (c c15Case) run(spelling string, tmp string) (trace []traceEv, out jetrun.O
 	names = append(names, t.Name)
 	vars := jet.VarMap{}
 	vars.Set("name", spelling)
+	if c.Via == "include-stringer" {
+		vars.Set("name", c15Name{spelling}) // a name computed at run time that is not a string but has a String method
+	}
 	out = jetrun.Exec(t, vars, nil)
 	outside = strings.Contains(out.Out, "OUTSIDE-MARKER")
 	return trace, out, names, outside
